@@ -51,6 +51,10 @@ inductive FAtom where
   | nsIndex
   /-- `krt.FilterIndex(valueIndex(sec), i.val)`: an index whose key changes when the object changes -/
   | valIndex
+  /-- `krt.FilterKeys(i.ref, i.ns/x)`: several keys -/
+  | keys
+  /-- `krt.FilterObjectName({Namespace: i.ns, Name: "y"})` -/
+  | objName
   /-- `krt.FilterGeneric(pred n i)` -/
   | generic (n : Nat)
   deriving DecidableEq, Repr, Inhabited
@@ -70,6 +74,8 @@ def FAtom.matches (i : Obj) : FAtom → Obj → Bool
   | .label, o => subsetOf i.sel o.labels
   | .nsIndex, o => o.ns == i.ns
   | .valIndex, o => o.val == i.val
+  | .keys, o => o.key == i.ref || o.key == i.ns ++ "/x"
+  | .objName, o => o.key == i.ns ++ "/y"
   | .generic n, o => genericPred n i o
 
 /-- A fetch = a conjunction of atoms. -/
@@ -109,6 +115,12 @@ def outVal (T : Transform) (sec : List Obj) (i : Obj) : Val :=
 /-- Namespace of an output value (the derived collection is indexed by it). -/
 def outNs (v : Val) : String := (v.splitOn "|").headD ""
 
+/-- The keys of the fetched objects rendered in an output value: the derived collection is also
+    indexed by them (an extractor that returns no, one or several index keys). -/
+def outFetched (v : Val) : List String :=
+  ((v.splitOn "[").drop 1).flatMap (fun seg =>
+    ((((seg.splitOn "]").headD "").splitOn ",").filter (· ≠ "")).map (fun e => (e.splitOn "=").headD ""))
+
 def gated (T : Transform) (sec : List Obj) (i : Obj) : Bool :=
   T.gate && match T.fetches with
     | [] => false
@@ -131,6 +143,27 @@ def specGet (T : Transform) (prim sec : List Obj) (k : Key) : Option Val :=
 /-- `Index.Lookup` of the namespace index on the derived collection. -/
 def specLookup (T : Transform) (prim sec : List Obj) (ns : String) : FinMap :=
   (specContents T prim sec).filter (fun kv => outNs kv.2 == ns)
+
+/-- `Index.Lookup` of the fetched-keys index on the derived collection. -/
+def specLookupF (T : Transform) (prim sec : List Obj) (k : String) : FinMap :=
+  (specContents T prim sec).filter (fun kv => (outFetched kv.2).contains k)
+
+/-! ### two fetched collections: fetches at even positions go to `sec`, at odd positions to `sec2` -/
+
+def fetchAlt (sec sec2 : List Obj) (i : Obj) (n : Nat) (f : FetchSpec) : List Obj :=
+  fetch (if n % 2 == 0 then sec else sec2) i f
+
+def outValAlt (T : Transform) (sec sec2 : List Obj) (i : Obj) : Val :=
+  i.ns ++ "|" ++ i.key ++ ":" ++ i.val ++ "|" ++
+    String.join (T.fetches.mapIdx (fun n f => renderFetch (fetchAlt sec sec2 i n f)))
+
+def gatedAlt (T : Transform) (sec : List Obj) (i : Obj) : Bool := gated T sec i
+
+def transformAlt (T : Transform) (sec sec2 : List Obj) (i : Obj) : List (Key × Val) :=
+  if gatedAlt T sec i then [] else (outKeys T i).map (fun k => (k, outValAlt T sec sec2 i))
+
+def specContentsAlt (T : Transform) (prim sec sec2 : List Obj) : FinMap :=
+  prim.flatMap (transformAlt T sec sec2)
 
 /-- The library's unique-key contract on the *current* inputs: two different inputs never produce
     the same output key. -/
